@@ -88,6 +88,13 @@ fn main() {
         common::install_quiet_panic_hook();
         std::process::exit(c_codec::c17_shard(seed, shard, secs));
     }
+    if prop == "miri-codecs" {
+        let seed = args.get(1).and_then(|s| s.parse().ok()).unwrap_or(1);
+        let shard = args.get(2).and_then(|s| s.parse().ok()).unwrap_or(0);
+        let rounds = args.get(3).and_then(|s| s.parse().ok()).unwrap_or(1);
+        common::install_quiet_panic_hook();
+        std::process::exit(c_codec::miri_codecs(seed, shard, rounds));
+    }
     if prop == "sched-confirm" {
         common::install_quiet_panic_hook();
         obs::install();
